@@ -68,7 +68,9 @@ func (m *objectMap) flush(db *DB) (err error) {
 
 	for _, o := range m.m {
 		if e := db.writeObject(o); e != nil {
+			// a write which failed is still to be done
 			err = e
+			continue
 		}
 		// we delete object from the list of objects to save
 		m.delete(o.UUID())
